@@ -184,7 +184,7 @@ func (C10) Gen(rng *core.Rng, tier string, idx int) *core.Scenario {
 			maxSegMS = d
 		}
 	}
-	chunked := w.Kind != "preenc" && rng.Chance(0.3)
+	chunked := rng.Chance(0.3) // (pre-encrypted assets too: a DRM parameter must be refused on every delivery path)
 	if chunked {
 		// low-latency mode: chunk duration = segment duration - ato. Requests are made after the
 		// segment has ended, so that all chunks are written at once (pacing is C09's business).
